@@ -614,7 +614,19 @@ pub mod gen {
                 m.iter().map(|x| round_to(bits, x * s)).collect::<Vec<f64>>()
             });
         let extreme = extreme_det_mat(n, bits).prop_map(move |m| m.iter().map(|x| round_to(bits, *x)).collect::<Vec<f64>>());
-        return prop_oneof![92 => scaled, 8 => extreme].boxed();
+        // the identity plus a perturbation of 1e-6 and less in some entries (a tiny rotation, shear or translation, the residue
+        // of B * B.inverse()): not the identity, whatever an approximate comparison says
+        let jmax: f64 = if bits == 32 { 9.0 } else { 15.0 };
+        let near_identity = proptest::collection::vec((0u8..2, 6.0f64..jmax, any::<bool>()), n * n).prop_map(move |e| {
+            (0..n * n)
+                .map(|i| {
+                    let (k, j, neg) = e[i];
+                    let d = if k == 0 { 0.0 } else { 10f64.powf(-j) * if neg { -1.0 } else { 1.0 } };
+                    round_to(bits, if i / n == i % n { 1.0 + d } else { d })
+                })
+                .collect::<Vec<f64>>()
+        });
+        return prop_oneof![88 => scaled, 8 => extreme, 4 => near_identity].boxed();
         #[allow(unreachable_code)]
         (prop_oneof![40 => kappa_mat(n, bits), 25 => trs_mat(n, bits), 20 => dense_mat(n), 15 => near_unit_mat(n, bits)], -g..=g, 0u8..3)
             .prop_map(move |(m, g, use_g)| {
